@@ -7,8 +7,15 @@
 //          Verus cannot attach a specification to it)
 //   R12    `o.map_or(false, |x| B)` -> `match (o) { Some(x) => B, None => false }` (definition of Option::map_or)
 //   R13    `while let Some(&(_, c)) = E {` -> `while let Some(t__r) = E { let (_, c) = *t__r;` (reference patterns)
-// Not in this unit: `tokenize_chars` (iterator `map` + `collect` with a closure, probes/tok_tokenize_chars_map_collect.rs)
-// and the `unicode` tokenizers.  The `[u8]` implementations are in tokens_bytes.rs (same unit).
+// The trait `DiffableStr` with its TRAIT-LEVEL contract is declared in diffablestr.rs (shared with units txt / rmp / txi,
+// included before this file): every impl method below has to establish the trait's clauses (tokens partition
+// `self.bytes()`, are non-empty, `self.tok_shape(kind, res@)`) in addition to the impl-level clauses stated here; the
+// impl defines `bytes()` := `spec_bytes()` and `tok_shape` := the line / run / one-char shape predicates.
+// `tokenize_chars` (iterator `map` + `collect` with a closure, probes/tok_tokenize_chars_map_collect.rs) keeps its real
+// body under `external_body`: its contract (trait clauses with `tok_shape(Chars, ..)` = `chars_spec`) is ASSUMED
+// (bounded stand-in: replay mode C06).  `len` is verified; `slice` (`&self[rng]`) keeps an ASSUMED contract (H-DS of
+// remap.rs: the trait-level precondition does not say that `rng` falls on char boundaries, where std panics).
+// Not in this unit: the `unicode` tokenizers.  The `[u8]` implementations are in tokens_bytes.rs (same unit).
 //
 // Vocabulary that comes from vstd (trusted as part of the verifier's library, not declared here):
 //   `s@ : Seq<char>` and `s.spec_bytes() : Seq<u8>` with `s.spec_bytes() == encode_utf8(s@)`, `vstd::utf8::*`
@@ -22,6 +29,7 @@ use vstd::utf8::*;
 use vstd::slice::SliceIndexSpec;
 use core::slice::SliceIndex;
 use core::ops::Index;
+use core::ops::Range;
 use core::str::CharIndices;
 use core::iter::Peekable;
 use std::hash::Hash;
@@ -158,6 +166,12 @@ pub open spec fn lines_spec(s: &str, toks: Seq<&str>, c: Seq<int>) -> bool {
 pub open spec fn runs_spec(s: &str, w: bool, toks: Seq<&str>, c: Seq<int>) -> bool {
     &&& partition(s, toks, c)
     &&& forall|k: int| 0 <= k < toks.len() ==> #[trigger] run_tok_ok(s@, w, c[k], c[k + 1])
+}
+
+/// tokenize_chars: token k is the k-th char (cut points 0, 1, .., n)
+pub open spec fn chars_spec(s: &str, toks: Seq<&str>) -> bool {
+    &&& toks.len() == s@.len()
+    &&& forall|k: int| 0 <= k < toks.len() ==> tok_is(s, #[trigger] toks[k], k, k + 1)
 }
 
 /// concatenation of the tokens, as bytes / as chars
@@ -485,39 +499,19 @@ pub proof fn lemma_tok_runs_unique(s: &str, w: bool, t1: Seq<&str>, c1: Seq<int>
 // 4. The code of /repo
 // ---------------------------------------------------------------------------------------------
 
-} // verus!
-
-// The trait declaration is taken outside the `verus!` block (attribute form), so that the function table of
-// tools/vx.py, which names the methods of `impl DiffableStr for [u8]` `DiffableStr::tokenize_*`, has no second entry
-// of that name.  It carries no contract: the contracts are on the two impls.
-/*@*/ #[verus_verify]
-//@@ item src/text/abstraction.rs :: ^pub trait DiffableStr\b only=fn\s+tokenize_(lines|lines_and_newlines|words)\(
-pub trait DiffableStr: Hash + PartialEq + PartialOrd + Ord + Eq + ToOwned {
-    /// Splits the value into newlines with newlines attached.
-    fn tokenize_lines(&self) -> Vec<&Self>;
-
-    /// Splits the value into newlines with newlines separated.
-    fn tokenize_lines_and_newlines(&self) -> Vec<&Self>;
-
-    /// Tokenizes into words.
-    fn tokenize_words(&self) -> Vec<&Self>;
-
-
-
-
-
-
-
-
-
-
-}
-//@@ end
-
-verus! {
-
-//@@ item src/text/abstraction.rs :: ^impl DiffableStr for str only=fn\s+tokenize_(lines|lines_and_newlines|words)\( rw=R0,R8,R13,R12,R11
+//@@ item src/text/abstraction.rs :: ^impl DiffableStr for str only=fn\s+(tokenize_(lines|lines_and_newlines|words|chars)|len|slice)\( rw=R0,R8,R13,R12,R11
 impl DiffableStr for str {
+    /*@*/ /// the byte view of a str: its UTF-8 bytes
+    /*@*/ open spec fn bytes(&self) -> Seq<u8> { self.spec_bytes() }
+    /*@*/ /// the shape clauses of the four tokenizers (see lines_spec / runs_spec / chars_spec)
+    /*@*/ open spec fn tok_shape(&self, kind: TokKind, toks: Seq<&str>) -> bool {
+    /*@*/     match kind {
+    /*@*/         TokKind::Lines => exists|c: Seq<int>| lines_spec(self, toks, c),
+    /*@*/         TokKind::LinesAndNewlines => exists|c: Seq<int>| runs_spec(self, false, toks, c),
+    /*@*/         TokKind::Words => exists|c: Seq<int>| runs_spec(self, true, toks, c),
+    /*@*/         TokKind::Chars => chars_spec(self, toks),
+    /*@*/     }
+    /*@*/ }
     fn tokenize_lines(&self) -> (res: Vec<&Self>)
     /*@*/     ensures
     /*@*/         // (P) non-empty tokens whose concatenation is the input, byte for byte
@@ -613,6 +607,9 @@ impl DiffableStr for str {
         /*@*/     assert(cut.last() == n);
         /*@*/     assert(lines_spec(self, lines@, cut));
         /*@*/     lemma_tok_partition_concat(self, lines@, cut);
+        /*@*/     // the trait-level clauses (diffablestr.rs)
+        /*@*/     lemma_tok_partition_bridge(self, lines@);
+        /*@*/     assert(Seq::new(lines@.len(), |i: int| <str as DiffableStr>::bytes(lines@[i])) =~= str_tok_bytes(lines@));
         /*@*/ }
         lines
     }
@@ -684,6 +681,9 @@ impl DiffableStr for str {
         /*@*/ proof {
         /*@*/     assert(runs_spec(self, false, rv@, cut));
         /*@*/     lemma_tok_partition_concat(self, rv@, cut);
+        /*@*/     // the trait-level clauses (diffablestr.rs)
+        /*@*/     lemma_tok_partition_bridge(self, rv@);
+        /*@*/     assert(Seq::new(rv@.len(), |i: int| <str as DiffableStr>::bytes(rv@[i])) =~= str_tok_bytes(rv@));
         /*@*/ }
         rv
     }
@@ -755,8 +755,22 @@ impl DiffableStr for str {
         /*@*/ proof {
         /*@*/     assert(runs_spec(self, true, rv@, cut));
         /*@*/     lemma_tok_partition_concat(self, rv@, cut);
+        /*@*/     // the trait-level clauses (diffablestr.rs)
+        /*@*/     lemma_tok_partition_bridge(self, rv@);
+        /*@*/     assert(Seq::new(rv@.len(), |i: int| <str as DiffableStr>::bytes(rv@[i])) =~= str_tok_bytes(rv@));
         /*@*/ }
         rv
+    }
+
+    /*@*/ // ASSUMED contract (the trait-level clauses of diffablestr.rs with tok_shape(Chars, ..) = chars_spec: one token per
+    /*@*/ // char): the body - iterator `map(closure)` + `collect()` - is outside Verus' subset
+    /*@*/ // (probes/tok_tokenize_chars_map_collect.rs).  Bounded stand-in: replay mode C06.
+    /*@*/ #[verifier::external_body]
+    fn tokenize_chars(&self) -> (res: Vec<&Self>)
+    {
+        self.char_indices()
+            .map(move |(i, c)| &self[i..i + c.len_utf8()])
+            .collect()
     }
 
 
@@ -764,8 +778,21 @@ impl DiffableStr for str {
 
 
 
+    fn len(&self) -> (res: usize)
+    {
+        /*@*/ proof { axiom_str_len_fits_usize(self); }
+        str::len(self)
+    }
 
-
+    /*@*/ // ASSUMED contract (H-DS, the trait-level clause `res.bytes() == self.bytes().subrange(rng.start, rng.end)` under
+    /*@*/ // `rng.start <= rng.end <= len`): `&self[rng]` on a str panics unless both ends are char boundaries, which the
+    /*@*/ // abstract byte view of the trait cannot say (a trait impl cannot add `requires`).  With that extra
+    /*@*/ // precondition the clause is vstd's postcondition of `SliceIndex<str>::index`.
+    /*@*/ #[verifier::external_body]
+    fn slice(&self, rng: Range<usize>) -> (res: &Self)
+    {
+        &self[rng]
+    }
 
 }
 //@@ end
